@@ -645,3 +645,71 @@ def run_unprivileged(fn, arg, timeout=600):
     if kind == "exc":
         raise InfraError("unprivileged child failed: " + val)
     return val
+
+
+HANG = {"__hang__": True}
+
+
+def map_in_child(fn, items, per_item_timeout=30, label="worker"):
+    """Run fn(item) for every item in a forked child process (one child for the whole batch; results come back
+    as JSON lines) and return the list of results.  If an item does not answer within `per_item_timeout`
+    seconds the child (and its process group) is killed, that item's result is `HANG`, and a fresh child
+    continues with the next item — so a wedge inside the code under test can never wedge the check.
+    fn must return something JSON-serialisable; an exception in fn is returned as {"__exc__": text}."""
+    import select
+
+    results = [None] * len(items)
+    start = 0
+    while start < len(items):
+        r, w = os.pipe()
+        sys.stdout.flush()
+        sys.stderr.flush()
+        pid = os.fork()
+        if pid == 0:
+            try:
+                os.close(r)
+                os.setpgid(0, 0)
+                out = os.fdopen(w, "w")
+                for i in range(start, len(items)):
+                    try:
+                        res = fn(items[i])
+                    except BaseException as e:  # noqa: BLE001
+                        res = {"__exc__": f"{type(e).__name__}: {e}\n{traceback.format_exc()[-1200:]}"}
+                    out.write(json.dumps([i, res]) + "\n")
+                    out.flush()
+            finally:
+                os._exit(0)
+        os.close(w)
+        buf = b""
+        nxt = start
+        hung = False
+        with os.fdopen(r, "rb", buffering=0) as f:
+            while nxt < len(items):
+                ready, _, _ = select.select([f], [], [], per_item_timeout)
+                if not ready:
+                    hung = True
+                    break
+                b = os.read(f.fileno(), 1 << 20)
+                if not b:
+                    break
+                buf += b
+                while b"\n" in buf:
+                    line, buf = buf.split(b"\n", 1)
+                    i, res = json.loads(line)
+                    results[i] = res
+                    nxt = i + 1
+        try:
+            os.killpg(pid, 9)
+        except OSError:
+            pass
+        try:
+            os.kill(pid, 9)
+        except OSError:
+            pass
+        os.waitpid(pid, 0)
+        if nxt >= len(items):
+            break
+        # the child stopped answering (hang) or died on item `nxt`
+        results[nxt] = HANG if hung else {"__exc__": f"{label}: child died on this item"}
+        start = nxt + 1
+    return results
